@@ -138,6 +138,45 @@ pub fn gen_inst(r: &mut Rng, max_c: usize, max_p: usize, rooms_mode: usize) -> I
             courses[f].fixed = r.chance(1, 2);
         }
     }
+    // special shape (1 in 6, with rooms): one course with an instructor that everybody wants first (it is filled up to its maximum), and at least
+    // as many rooms as courses, all of a size just below / at the bounds a "the rooms can never bind" shortcut might compute: the largest full
+    // size with instructors minus one, the largest size WITHOUT instructors, the largest head count without factor and offset
+    if rooms_mode != 0 && rooms_mode != 3 && nc >= 1 && np >= 3 && r.chance(1, 6) {
+        style.push_str("+fullhouse");
+        let cstar = r.below(nc);
+        if courses[cstar].instr.is_empty() {
+            let cand: Vec<usize> = (0..np).filter(|p| !courses.iter().any(|c| c.instr.contains(p))).collect();
+            if !cand.is_empty() {
+                let i = *r.pick(&cand);
+                courses[cstar].instr.push(i);
+            }
+        }
+        courses[cstar].max = courses[cstar].max.max(2);
+        courses[cstar].min = courses[cstar].min.min(courses[cstar].max);
+        for p in 0..np {
+            if courses.iter().any(|c| c.instr.contains(&p)) {
+                continue;
+            }
+            parts[p].retain(|(c, _)| *c != cstar);
+            parts[p].insert(0, (cstar, 0));
+            for (rank, ch) in parts[p].iter_mut().enumerate() {
+                ch.1 = rank as u32;
+            }
+        }
+        let size = |c: &ICourse, n: usize| (f32::from_bits(c.obits) + f32::from_bits(c.fbits) * n as f32).ceil() as usize;
+        let t_full = courses.iter().map(|c| size(c, c.max + c.instr.len())).max().unwrap_or(0);
+        let t_noinstr = courses.iter().map(|c| size(c, c.max)).max().unwrap_or(0);
+        let t_heads = courses.iter().map(|c| c.max + c.instr.len()).max().unwrap_or(0);
+        let b = match r.below(4) {
+            0 => t_full.saturating_sub(1),
+            1 => t_noinstr,
+            2 => t_heads,
+            _ => t_full.saturating_sub(2),
+        };
+        let n = nc + r.range(0, 2);
+        let rooms: Vec<usize> = (0..n).map(|_| b).collect();
+        return Inst { courses, parts, rooms: Some(rooms), style };
+    }
     let rooms = match rooms_mode {
         0 | 3 => None,
         1 => Some(gen_rooms(r, nc, &courses)),
@@ -163,7 +202,11 @@ fn gen_rooms(r: &mut Rng, nc: usize, courses: &[ICourse]) -> Vec<usize> {
     // filled (factor and offset applied to attendees AND instructors) -- the corner where "the rooms can never bind" is almost true
     if r.chance(1, 4) && nc > 0 {
         let c = r.pick(courses);
-        let full = (f32::from_bits(c.obits) + f32::from_bits(c.fbits) * (c.max + c.instr.len()) as f32).ceil() as usize;
+        let mut full = (f32::from_bits(c.obits) + f32::from_bits(c.fbits) * (c.max + c.instr.len()) as f32).ceil() as usize;
+        if r.chance(1, 2) {
+            // ... or of the largest size any course reaches WITHOUT its instructors (a bound that forgets them)
+            full = courses.iter().map(|c| (f32::from_bits(c.obits) + f32::from_bits(c.fbits) * c.max as f32).ceil() as usize).max().unwrap_or(0);
+        }
         let n = nc + r.range(0, 2);
         let d = r.range(0, 2);
         return (0..n).map(|i| if i == 0 && r.chance(1, 3) { full } else { full.saturating_sub(d) }).collect();
